@@ -99,6 +99,9 @@ func DecodeContainerChildren(hdr BoxHeader, startPos, endPos uint64, r io.Reader
 	children := make([]Box, 0, 8)
 	pos := startPos
 	for {
+		if pos == endPos { // Also handles an empty container, so that a following sibling is not consumed
+			return children, nil
+		}
 		child, err := DecodeBox(pos, r)
 		if err == io.EOF {
 			return children, nil
